@@ -24,6 +24,13 @@ Replace-around steps (last section of lean/Props/C17.lean):
   kept gap.  For partners inside the gap (not part of the search population, whose notion of "separated" uses
   `from`/`to`) the conclusions of `rebase_around_separated` / `commute_replace_around` / `commute_around_nodeStep`
   are checked on the real code: neither step dropped; if all four applications succeed the documents are equal.
+* `gapGuard` (lean/PM/CommuteGuard.lean; guard of the stated, not yet proved `commute_succeeds_around_gap`): for a
+  replace / replace-around step strictly inside the gap, "replace_outer descends into an element node lying inside the
+  gap" is computed from the real `ResolvedPos` data (`inside_gap` below) and by the model (driver op `gapGuard`),
+  compared, and the relational oracle "guard true => the real code's four applications succeed and give equal
+  documents" is checked on every such pair (counters `gapGuard:<guard>,<converged|an-order-fails>`).
+* two replace-around steps one after the other (`commute_succeeds_around_around`): `commuteGuard` on `(from, to, slice)`
+  of both, same tie and oracle as for replace steps (counters `guard-around-around:*`).
 """
 from prosemirror.transform import (
     AddMarkStep,
@@ -128,6 +135,23 @@ def inside_right(doc, l, r):
         d += 1
 
 
+def inside_gap(doc, a, r):
+    """`gapGuard` of lean/PM/CommuteGuard.lean on the real data: replace_outer of the step `r` (a replace step, or
+    `(from, to, slice)` of a replace-around step) descends into an element node that lies entirely inside the kept
+    gap of the replace-around step `a`"""
+    rf1, rt1 = doc.resolve(r.from_), doc.resolve(r.to)
+    e1 = rf1.depth - r.slice.open_start
+    d = 0
+    while True:
+        if rf1.depth <= d:
+            return False
+        if not (e1 - d > 0 and rt1.depth > d and rt1.index(d) == rf1.index(d)):
+            return False
+        if a.gap_from <= rf1.before(d + 1) and rf1.after(d + 1) <= a.gap_to:
+            return True
+        d += 1
+
+
 def first_step(rng, info, d, docs):
     tr = Transform(d)
     name, args, thunk = ops.plan_op(rng, info, d, docs)
@@ -165,6 +189,17 @@ def run(ctx):
                 if not impl_shape:
                     # the hypothesis of the replace-around theorems fails for a step the library built
                     ctx.mismatch("aroundShape-holds", replay, True, impl_shape)
+                continue
+            if req["op"] == "gapGuard":
+                replay, impl_guard, converged = meta
+                ctx.count("gapGuard:model_requests")
+                if out.get("ok") is not impl_guard:
+                    ctx.mismatch("gapGuard", replay, impl_guard, out)
+                    continue
+                ctx.count("gapGuard:%s,%s" % (impl_guard, "converged" if converged else "an-order-fails"))
+                if impl_guard and not converged:
+                    # the conclusion of `commute_succeeds_around_gap` fails on the real code although its guard holds
+                    ctx.mismatch("gapGuard=>converge", replay, "a rebased step fails or the orders differ", out)
                 continue
             replay, info, impl_sq, kind = meta
             ctx.count("square:model_requests")
@@ -265,6 +300,12 @@ def run(ctx):
                             da_, db_, x2, y2, dxy, dyx = sq
                             if da_ is None or db_ is None:
                                 break
+                            if isinstance(y, (ReplaceStep, ReplaceAroundStep)):
+                                stg, g = outcome(lambda: inside_gap(d, x, y))
+                                if stg == "ok":
+                                    sreqs.append({"op": "gapGuard", "doc": info.node(d), "a": info.step(x), "b": info.step(y)})
+                                    smetas.append((greplay, g, x2 is not None and y2 is not None and dxy is not None
+                                                   and dyx is not None and dxy.eq(dyx)))
                             if x2 is None or y2 is None:
                                 ctx.mismatch("around-gap=>kept", greplay, "both rebased steps kept", {"a_rebased": x2 and x2.to_json(), "b_rebased": y2 and y2.to_json()})
                             elif dxy is not None and dyx is not None and not dxy.eq(dyx):
@@ -305,12 +346,13 @@ def run(ctx):
                     if isinstance(a, ReplaceAroundStep) or isinstance(b, ReplaceAroundStep):
                         square(a, b, "outside", replay)
                     n_around = isinstance(a, ReplaceAroundStep) + isinstance(b, ReplaceAroundStep)
-                    if isinstance(a, (ReplaceStep, ReplaceAroundStep)) and isinstance(b, (ReplaceStep, ReplaceAroundStep)) and n_around == 1:
-                        # the guard with (from, to, slice) of the replace-around step in place of a replace step
+                    if isinstance(a, (ReplaceStep, ReplaceAroundStep)) and isinstance(b, (ReplaceStep, ReplaceAroundStep)) and n_around >= 1:
+                        # the guard with (from, to, slice) of the replace-around step(s) in place of a replace step
+                        # (n_around == 2: `commute_succeeds_around_around`)
                         l, r = (a, b) if a.to < b.from_ else (b, a)
                         stg, g = outcome(lambda: (inside_left(d, l, r), inside_right(d, l, r)))
                         if stg == "ok":
-                            ctx.count("guard-around:" + ("holds" if (g[0] or g[1]) else "fails"))
+                            ctx.count("guard-around%s:" % ("" if n_around == 1 else "-around") + ("holds" if (g[0] or g[1]) else "fails"))
                             greqs.append({"op": "commuteGuard", "doc": info.node(d), "a": info.step(l), "b": info.step(r)})
                             gmetas.append((replay, g, dab is not None and dba is not None and dab.eq(dba)))
                     if type(a) is ReplaceStep and type(b) is ReplaceStep:
